@@ -60,6 +60,9 @@ def exact_reason(s, defs, top=True):
     for kw in ("allOf", "anyOf", "oneOf", "not"):
         if kw in s and mentions_object(s[kw]):
             return "multi-over-object"
+    if s.get("uniqueItems") and mentions_object(s.get("items")):
+        # elements become Structure instances / surplus elements stay raw dicts: `==` differs from JSON equality
+        return "unique-over-object"
     if isinstance(s.get("multiplesOf"), float) or (s.get("type") == "number" and "multiplesOf" in s):
         return "float-multiplesOf"
     for k, v in s.items():
